@@ -56,6 +56,12 @@ def expr_trees(draw, max_leaves=5, orders=None, literal_rate=15, big_literals=Fa
             k = orders[name]
             idxs = list(draw(st.permutations(IDX)))[:k]
             leaves.append(["t", name, idxs])
+    if big_literals and draw(st.integers(0, 7)) == 0:
+        # two literals as direct siblings of one operator (a constant sub-expression), with magnitudes whose product or
+        # sum leaves the double range or the int32 range
+        a, b = (draw(st.sampled_from([["f", "1e200"], ["f", "1e308"], ["f", "1.7976931348623157e308"], ["f", "1e-200"],
+                                      ["f", "5e-324"], ["i", 65536], ["i", 2**31 - 1], ["f", "2.5"], ["i", 3]])) for _ in range(2))
+        leaves.insert(draw(st.integers(0, len(leaves))), [draw(st.sampled_from("*+-")), a, b])
     if not any(l[0] == "t" for l in leaves):
         # make sure at least one tensor is present most of the time
         if draw(st.integers(0, 9)) < 8:
@@ -321,6 +327,77 @@ def lattice_cases(draw, max_operands=4, value_class="exact"):
         inputs[t] = draw(stored_tensor(dims, fm[t], value_class, draw(st.sampled_from([1, 2, 2, 3]))))
     return {"target": target, "expr": tree, "assignment": X.assignment_text(target, tree), "formats": fm,
             "sizes": sizes, "inputs": inputs, "value_class": value_class}
+
+
+@st.composite
+def hollow_tensor(draw, dims, fmt, value_class="exact"):
+    """A legal level structure that no constructor builds: coordinates stored at an upper compressed level whose
+    segment at the next level is empty (pos[q] == pos[q+1]), for about half of the stored coordinates."""
+    modes, ordering = C.fmt_parts(fmt)
+    ldims = [dims[d] for d in ordering]
+    levels = []
+    n = 1
+    for l, md in enumerate(modes):
+        d = ldims[l]
+        if md == "d":
+            levels.append(None)
+            n *= d
+            continue
+        pos, crd = [0], []
+        for _p in range(n):
+            if d == 0 or (l > 0 and draw(st.booleans())):
+                sub = []
+            else:
+                mask = draw(st.integers(1, 2**d - 1)) | (draw(st.integers(0, 2**d - 1)) if l == 0 else 0)
+                sub = [x for x in range(d) if mask >> x & 1]
+            crd.extend(sub)
+            pos.append(len(crd))
+        levels.append([pos, crd])
+        n = len(crd)
+    vals = [draw(st.integers(-8, 8)) / 2 for _ in range(n)] if value_class == "exact" else [1.0] * n
+    return {"levels": levels, "vals": vals}
+
+
+@st.composite
+def hollow_cases(draw, value_class="exact"):
+    """One operand of order 2-3 stored (almost) all-compressed and *hollow* (see hollow_tensor); the output keeps a
+    non-empty proper subset of its indexes in a compressed format and the rest is contracted, optionally against
+    dense vectors, optionally added to a second sparse operand.  Every shortcut of the form 'a stored coordinate
+    has something stored below it' is wrong on these inputs."""
+    n = draw(st.sampled_from([2, 3, 3]))
+    idxs = list(IDX[:n])
+    ordering = tuple(draw(st.permutations(range(n)))) if draw(st.booleans()) else tuple(range(n))
+    modes = tuple("d" if (l == 0 and draw(st.integers(0, 4)) == 0) else "s" for l in range(n))
+    fb = C.fmt_text(modes, ordering)
+    level_idx = [idxs[d] for d in ordering]
+    k = draw(st.integers(1, n - 1))
+    tgt = level_idx[:k]
+    if k > 1 and draw(st.integers(0, 3)) == 0:
+        tgt = list(reversed(tgt))
+    contracted = [i for i in level_idx if i not in tgt]
+    sizes = {i: draw(st.sampled_from([2, 3, 3, 4])) for i in idxs}
+    tree = ["t", "b", idxs]
+    fm = {"o": C.fmt_text(tuple("d" if (l > 0 and draw(st.integers(0, 5)) == 0) else "s" for l in range(k)), tuple(range(k)))}
+    fm["b"] = fb
+    inputs = {"b": draw(hollow_tensor(tuple(sizes[i] for i in idxs), fb, value_class))}
+    for q, i in enumerate(contracted):
+        if draw(st.booleans()):
+            nm = "cd"[q % 2]
+            if nm in fm:
+                continue
+            tree = ["*", tree, ["t", nm, [i]]] if draw(st.booleans()) else ["*", ["t", nm, [i]], tree]
+            fm[nm] = draw(st.sampled_from(["d", "d", "s"]))
+            inputs[nm] = draw(stored_tensor((sizes[i],), fm[nm], value_class, 4 if fm[nm] == "d" else 3))
+    if draw(st.integers(0, 3)) == 0:
+        fm["e"] = C.fmt_text(tuple("s" for _ in tgt), tuple(range(len(tgt))))
+        inputs["e"] = draw(stored_tensor(tuple(sizes[i] for i in tgt), fm["e"], value_class, 1))
+        tree = [draw(st.sampled_from("+-")), tree, ["t", "e", list(tgt)]] if draw(st.booleans()) else ["+", ["t", "e", list(tgt)], tree]
+    if draw(st.integers(0, 5)) == 0:
+        tree = ["*", tree, ["f", "1.5"]]
+    target = ["o", list(tgt)]
+    order = ["o"] + tensors_in_order(tree)
+    return {"target": target, "expr": tree, "assignment": X.assignment_text(target, tree), "formats": {nm: fm[nm] for nm in order},
+            "sizes": {i: sizes[i] for i in sorted(sizes)}, "inputs": inputs, "value_class": value_class}
 
 
 def tensors_in_order(tree):
